@@ -4,6 +4,7 @@ baseline tests still pass, and the demo (demo.yl + expected.txt) passes without 
 Writes /tmp/mutout/<id>/<X>/confirm.json. usage: confirm_mutants.py [C03/A ...]"""
 import json, os, subprocess, sys, glob, shutil
 
+ROOT = os.environ.get("MUTROOT", "/tmp/mutout")
 WT = "/tmp/wt/confirm"
 ENV = dict(os.environ, CARGO_NET_OFFLINE="true")
 
@@ -27,9 +28,9 @@ def norm(s):
     return re.sub(r"0x[0-9a-f]+", "0xADDR", s).strip()
 
 def main():
-    targets = sys.argv[1:] or sorted(os.path.relpath(p, "/tmp/mutout") for p in glob.glob("/tmp/mutout/C*/[AB]") if os.path.exists(p + "/patch.diff"))
+    targets = sys.argv[1:] or sorted(os.path.relpath(p, ROOT) for p in glob.glob(ROOT + "/C*/[AB]") if os.path.exists(p + "/patch.diff"))
     for t in targets:
-        d = "/tmp/mutout/" + t
+        d = ROOT + "/" + t
         outp = d + "/confirm.json"
         pf = d + "/patch.manual.diff" if os.path.exists(d + "/patch.manual.diff") else d + "/patch.diff"
         if os.path.exists(outp):
